@@ -17,6 +17,8 @@ mod c11;
 mod c08;
 mod c13;
 mod c12;
+mod mutate;
+mod c15;
 
 use engine::{Env, Tier};
 use std::path::PathBuf;
@@ -93,12 +95,14 @@ fn main() {
         },
         scale,
         child,
+        stack_mb: if prop == "C15" { 8 } else { 64 },
     };
     rt::install_panic_hook();
     let code = match prop.as_str() {
         "dev-gen" => dev::gen_stats(&env, &rest),
         "dev-show" => dev::show(&env, &rest),
         "dev-run" => dev::run_file(&env, &rest),
+        "dev-load" => dev::load_file(&env, &rest),
         "C04" => c04::run(&env),
         "C02" => c02::run(&env),
         "C17" => c17::run(&env),
@@ -110,6 +114,7 @@ fn main() {
         "C08" => c08::run(&env),
         "C13" => c13::run(&env),
         "C12" => c12::run(&env),
+        "C15" => c15::run(&env),
         _ => usage(),
     };
     std::process::exit(code);
